@@ -25,6 +25,13 @@ fn unhex(s: &str) -> Vec<u8> {
 
 fn build(bytes: &[u8], max: usize) -> Result<String, String> {
     let mut u = Unstructured::new(bytes);
+    if max == 0 {
+        // the default configuration
+        return match DocumentBuilder::new(&mut u).build() {
+            Ok(doc) => Ok(String::from(doc)),
+            Err(e) => Err(format!("{e:?}")),
+        };
+    }
     let b = DocumentBuilder::new(&mut u)
         .max_scalar_types(max)
         .max_enum_types(max)
@@ -201,7 +208,16 @@ fn shaped_bytes(rng: &mut Rng) -> Vec<u8> {
         4 => rng.range(2048, 4096),
         _ => rng.range(4096, 16384),
     };
-    match rng.below(6) {
+    match rng.below(8) {
+        6 | 7 => {
+            // a tiny byte alphabet: short names over few characters, so that generated names
+            // collide with each other and with their own numbered variants (`A`, `A0`, `A7`, ...)
+            let pool = [0u8, 1, 2, 26, 53, 54, 60, 61, rng.next_u32() as u8, rng.next_u32() as u8];
+            let k = rng.range(2, 6);
+            let alpha: Vec<u8> = (0..k).map(|_| *rng.pick(&pool)).collect();
+            let tail_random = rng.chance(1, 3);
+            (0..n).map(|i| if tail_random && i > n / 2 { rng.next_u32() as u8 } else { *rng.pick(&alpha) }).collect()
+        }
         0 => vec![*rng.pick(&[0u8, 1, 0x7f, 0x80, 0xff]); n],
         1 => (0..n).map(|i| i as u8).collect(),
         2 => {
@@ -257,7 +273,9 @@ pub fn run(ctx: &mut Ctx) {
                 } else {
                     shaped_bytes(&mut rng)
                 };
-                let max = *rng.pick(&[1usize, 2, 2, 3, 3, 4, 6]);
+                // 0 = DocumentBuilder's default configuration
+                let max = *rng.pick(&[1usize, 2, 2, 3, 3, 4, 6, 0, 0]);
+                ctx.class("configuration", if max == 0 { "default" } else { "max-per-kind" });
                 let before = ctx.class_len("definition_kind_generated");
                 check_document(ctx, &bytes, max, "bytes");
                 if ctx.class_len("definition_kind_generated") > before && interesting.len() < 64 {
